@@ -141,12 +141,17 @@ struct BoxT final : Box {
             }
         } else if (ov == "cstr") {
             if (hp || (hz && !hn) || (h1 && !hz)) return "bad-op\tbad-op";
-            std::vector<long long> z(units);
-            z.push_back(0);
-            proto::heap_buf<C> hb(z); // exact size with terminator
+            // `s` is the WHOLE allocation the pointer points at: an exact-size heap buffer with nothing appended.
+            // With an explicit n the generator sends n or more units and NO terminator (a read of unit n + k
+            // beyond the list lands in the ASan red zone; null characters among the units are digits of an
+            // alphabet that contains CharT(0)); only the npos form carries a terminator (sent by the generator).
+            auto ne = hn ? l.pos("n", SV::npos) : SV::npos;
+            auto ns = hn ? l.pos("n", ustr<C>::npos) : ustr<C>::npos;
+            bool terminated = false;
+            for (auto u : units) terminated = terminated || static_cast<C>(u) == C(0);
+            if (ne == SV::npos ? !terminated : ne > units.size()) return "bad-op\tbad-op"; // precondition of both
+            proto::heap_buf<C> hb(units);
             C const* cp = hb.p;
-            auto ne     = hn ? l.pos("n", SV::npos) : SV::npos;
-            auto ns     = hn ? l.pos("n", ustr<C>::npos) : ustr<C>::npos;
             if (h1) eo = E(cp, ne, zero, one);
             else if (hz) eo = E(cp, ne, zero);
             else if (hn) eo = E(cp, ne);
@@ -176,12 +181,17 @@ struct BoxT final : Box {
         C zero = static_cast<C>(l.i("zero", '0'));
         C one  = static_cast<C>(l.i("one", '1'));
         std::vector<long long> re, rs;
+        // the result is an inplace string of capacity Cap (cap == N: exactly the digits): its size, its
+        // characters and the terminator behind them (`c_str()[size()]`, reported as -1 when it is not CharT(0))
         auto units = [](auto const& str) {
             std::vector<long long> r;
             for (auto c : str) r.push_back(static_cast<long long>(static_cast<std::make_unsigned_t<
                 std::conditional_t<std::is_same_v<C, char8_t> || std::is_same_v<C, char16_t> || std::is_same_v<C, char32_t>,
                     std::conditional_t<sizeof(C) == 1, unsigned char, std::conditional_t<sizeof(C) == 2, unsigned short, unsigned>>,
                     C>>>(c)));
+            if constexpr (requires { str.c_str(); str.capacity(); }) {
+                if (str.size() > str.capacity() || str.c_str()[str.size()] != C(0)) r.push_back(-1);
+            }
             return r;
         };
         auto call = [&]<std::size_t Cap>() {
